@@ -13,11 +13,12 @@
 #include "venv.h"
 #include "tlsh.h"
 
-enum { A_NONE, A_OMIT, A_EMPTY_CERT };
-typedef struct { int puppet /* vnet task id: 0 client, 1 server */, k, action; } plan_t; static plan_t PLAN = { -1, -1, A_NONE };
+enum { A_NONE, A_OMIT, A_EMPTY_CERT, A_ALTER };
+typedef struct { int puppet /* vnet task id: 0 client, 1 server */, k, action, off, val, wrongkey; } plan_t; static plan_t PLAN = { -1, -1, A_NONE, 0, 0, 0 };
 typedef struct { int status, c_hs, s_hs, nsend[2]; struct { uint8_t rtype, hstype; uint16_t len; } snd[2][24]; } out_t; static out_t *XO;
 /* per-thread filter state */
-static __thread int T_NSEND; static __thread const uint8_t *T_SKIP_PTR; static __thread size_t T_SKIP_LEN; static __thread int T_SKIP_NEXT_DIGEST, T_SKIP_NEXT_SEQ, T_CCS_SENT, T_LEARN_IDX = -1; static __thread uint8_t T_REP[16]; static __thread int T_SUBST;
+static __thread int T_NSEND; static __thread const uint8_t *T_SKIP_PTR; static __thread size_t T_SKIP_LEN; static __thread int T_SKIP_NEXT_DIGEST, T_SKIP_NEXT_SEQ, T_CCS_SENT, T_LEARN_IDX = -1; static __thread uint8_t T_REP[16]; static __thread int T_SUBST; static __thread uint8_t T_ALT[20000]; static __thread size_t T_ALTLEN; static __thread int T_ALT13;
+static const uint8_t SUBV[7] = { 0x00, 0x01, 0x7f, 0x80, 0x81, 0xfe, 0xff }; static uint8_t subst(uint8_t o, int k) { return k < 7 ? SUBV[k] : (k == 7 ? o ^ 0x01 : o ^ 0x80); }
 int __real_tls_record_send(const uint8_t *record, size_t recordlen, tls_socket_t sock); void __real_sm3_update(SM3_CTX *c, const uint8_t *d, size_t n); int __real_digest_update(DIGEST_CTX *c, const uint8_t *d, size_t n); int __real_tls_seq_num_incr(uint8_t seq[8]);
 int __wrap_tls_record_send(const uint8_t *record, size_t recordlen, tls_socket_t sock) {
 	if (vn_me < 0 || !vn_active) return __real_tls_record_send(record, recordlen, sock);
@@ -25,17 +26,22 @@ int __wrap_tls_record_send(const uint8_t *record, size_t recordlen, tls_socket_t
 	if (idx < 24) { XO->snd[me][idx].rtype = record[0]; XO->snd[me][idx].hstype = plain_hs ? record[5] : 0; XO->snd[me][idx].len = (uint16_t)recordlen; XO->nsend[me] = idx + 1; } T_LEARN_IDX = (record[0] == 23) ? idx : -1;
 	if (me == PLAN.puppet && idx == PLAN.k) {
 		if (PLAN.action == A_OMIT) { if (plain_hs) { T_SKIP_PTR = record + 5; T_SKIP_LEN = recordlen - 5; } else if (record[0] == 23) { T_SKIP_NEXT_DIGEST = 1; T_SKIP_NEXT_SEQ = 1; } return 1; }
+		if (PLAN.action == A_ALTER && plain_hs && recordlen <= sizeof T_ALT && (size_t)(9 + PLAN.off) < recordlen) { memcpy(T_ALT, record, recordlen); T_ALT[9 + PLAN.off] = subst(T_ALT[9 + PLAN.off], PLAN.val); T_ALTLEN = recordlen; T_SKIP_PTR = record + 5; T_SKIP_LEN = recordlen - 5; T_SUBST = 2; return __real_tls_record_send(T_ALT, recordlen, sock); }
 		if (PLAN.action == A_EMPTY_CERT && plain_hs && record[5] == 11) { uint8_t rep[12] = { 22, record[1], record[2], 0, 7, 11, 0, 0, 3, 0, 0, 0 }; memcpy(T_REP, rep, 12); T_SKIP_PTR = record + 5; T_SKIP_LEN = recordlen - 5; T_SUBST = 1; return __real_tls_record_send(T_REP, 12, sock); } }
 	return __real_tls_record_send(record, recordlen, sock); }
-void __wrap_sm3_update(SM3_CTX *c, const uint8_t *d, size_t n) { if (T_SKIP_PTR && d == T_SKIP_PTR && n == T_SKIP_LEN && vn_me >= 0) { if (T_SUBST) __real_sm3_update(c, T_REP + 5, 7); return; } __real_sm3_update(c, d, n); }
-int __wrap_digest_update(DIGEST_CTX *c, const uint8_t *d, size_t n) { if (vn_me >= 0 && vn_active) { if (T_LEARN_IDX >= 0 && T_LEARN_IDX < 24 && n >= 4) { XO->snd[vn_me][T_LEARN_IDX].hstype = d[0]; T_LEARN_IDX = -1; } if (T_SKIP_NEXT_DIGEST) { T_SKIP_NEXT_DIGEST = 0; return 1; } } return __real_digest_update(c, d, n); }
+void __wrap_sm3_update(SM3_CTX *c, const uint8_t *d, size_t n) { if (T_SKIP_PTR && d == T_SKIP_PTR && n == T_SKIP_LEN && vn_me >= 0) { if (T_SUBST == 1) __real_sm3_update(c, T_REP + 5, 7); else if (T_SUBST == 2) __real_sm3_update(c, T_ALT + 5, T_ALTLEN - 5); return; } __real_sm3_update(c, d, n); }
+int __real_sm4_gcm_encrypt(const SM4_KEY *key, const uint8_t *iv, size_t ivlen, const uint8_t *aad, size_t aadlen, const uint8_t *in, size_t inlen, uint8_t *out, size_t taglen, uint8_t *tag);
+int __wrap_sm4_gcm_encrypt(const SM4_KEY *key, const uint8_t *iv, size_t ivlen, const uint8_t *aad, size_t aadlen, const uint8_t *in, size_t inlen, uint8_t *out, size_t taglen, uint8_t *tag) {
+	if (vn_me >= 0 && vn_active && vn_me == PLAN.puppet && PLAN.action == A_ALTER && T_NSEND == PLAN.k && inlen <= sizeof T_ALT && (size_t)(4 + PLAN.off) < inlen) { memcpy(T_ALT, in, inlen); T_ALT[4 + PLAN.off] = subst(T_ALT[4 + PLAN.off], PLAN.val); T_ALT13 = 1; return __real_sm4_gcm_encrypt(key, iv, ivlen, aad, aadlen, T_ALT, inlen, out, taglen, tag); }
+	return __real_sm4_gcm_encrypt(key, iv, ivlen, aad, aadlen, in, inlen, out, taglen, tag); }
+int __wrap_digest_update(DIGEST_CTX *c, const uint8_t *d, size_t n) { if (vn_me >= 0 && vn_active) { if (T_ALT13 && vn_me == PLAN.puppet && n <= sizeof T_ALT && (size_t)(4 + PLAN.off) < n) { T_ALT13 = 0; static __thread uint8_t cp[20000]; memcpy(cp, d, n); cp[4 + PLAN.off] = subst(cp[4 + PLAN.off], PLAN.val); return __real_digest_update(c, cp, n); } if (T_LEARN_IDX >= 0 && T_LEARN_IDX < 24 && n >= 4) { XO->snd[vn_me][T_LEARN_IDX].hstype = d[0]; T_LEARN_IDX = -1; } if (T_SKIP_NEXT_DIGEST) { T_SKIP_NEXT_DIGEST = 0; return 1; } } return __real_digest_update(c, d, n); }
 int __wrap_tls_seq_num_incr(uint8_t seq[8]) { if (vn_me >= 0 && vn_active && T_SKIP_NEXT_SEQ) { T_SKIP_NEXT_SEQ = 0; return 1; } return __real_tls_seq_num_incr(seq); }
 
-static side_creds SRV[3], CLI[3]; static char FAIL[32];
+static side_creds SRV[3], CLI[3], SRVW[3], CLIW[3]; /* ...W: the prover's chain is genuine but it signs with an unrelated key */ static char FAIL[32];
 static void run_exec(int proto, int who /* 0: client verifies the (puppet) server, 1: server verifies the (puppet) client */) {
 	memset(XO, 0, sizeof *XO); FAIL[0] = 0; fflush(stdout); pid_t pid = fork(); if (pid < 0) vh_harness_error("fork");
 	if (pid == 0) { if (!freopen("/dev/null", "w", stderr) || !freopen("/dev/null", "w", stdout)) {} alarm(30); static ep_t c, s; memset(&c, 0, sizeof c); memset(&s, 0, sizeof s);
-		c.proto = s.proto = proto; c.is_client = 1; c.mutual = s.mutual = (who == 1); c.own = &CLI[proto]; s.own = &SRV[proto]; c.trust = &SRV[proto]; s.trust = who == 1 ? &CLI[proto] : NULL; c.entropy_key = 0xC11E17; s.entropy_key = 0x5E12BE12; c.entropy_fail_at = s.entropy_fail_at = -1;
+		c.proto = s.proto = proto; c.is_client = 1; c.mutual = s.mutual = (who == 1); c.own = (PLAN.wrongkey && who == 1) ? &CLIW[proto] : &CLI[proto]; s.own = (PLAN.wrongkey && who == 0) ? &SRVW[proto] : &SRV[proto]; c.trust = &SRV[proto]; s.trust = who == 1 ? &CLI[proto] : NULL; c.entropy_key = 0xC11E17; s.entropy_key = 0x5E12BE12; c.entropy_fail_at = s.entropy_fail_at = -1;
 		int cr, sr; XO->status = vnet_run2(ep_task, &c, ep_task, &s, &cr, &sr); XO->c_hs = c.hs_ret; XO->s_hs = s.hs_ret; _exit(0); }
 	int st; while (waitpid(pid, &st, 0) < 0 && errno == EINTR) {} if (!WIFEXITED(st) || WEXITSTATUS(st)) snprintf(FAIL, sizeof FAIL, "%s", WIFSIGNALED(st) ? (WTERMSIG(st) == SIGALRM ? "hang" : "crash") : "abnormal-exit"); }
 static const char *hsname(int t) { switch (t) { case 1: return "ClientHello"; case 2: return "ServerHello"; case 8: return "EncryptedExtensions"; case 11: return "Certificate"; case 12: return "ServerKeyExchange"; case 13: return "CertificateRequest"; case 14: return "ServerHelloDone"; case 15: return "CertificateVerify"; case 16: return "ClientKeyExchange"; case 20: return "Finished"; default: return "other"; } }
@@ -53,6 +59,15 @@ static void body(void) {
 			if (verifier_done && relevant) { snprintf(key, sizeof key, "C09:%s:%s-%s:verifier-completed", bn, mn, an); vh_viol(key, "\"message_index\":%d,\"c_hs\":%d,\"s_hs\":%d", k, XO->c_hs, XO->s_hs); }
 			else if (verifier_done) vh_obs("%s: verifier completes although the prover left out %s (not an authentication message)", bn, mn);
 			vh_sample("{\"block\":\"%s\",\"message\":\"%s\",\"action\":\"%s\",\"verifier_completed\":%d,\"prover_completed\":%d}", bn, mn, an, verifier_done, who ? XO->c_hs == 1 : XO->s_hs == 1); } }
+	/* a prover WITHOUT the private key (genuine chain, signatures made with an unrelated key) that in addition alters one byte of the header
+	   fields of its signed message (CertificateVerify / ServerKeyExchange: algorithm identifiers, lengths, first signature bytes) consistently:
+	   whatever it writes there, the verifier must not complete */
+	for (int p = 0; p < 3; p++) for (int who = 0; who < 2; who++) { char bn[64]; snprintf(bn, sizeof bn, "keyless-%s-%s-verifies-%s", PNAME[p], who ? "server" : "client", who ? "client" : "server"); if (!vh_block_begin(bn)) continue; int pup = who ? 0 : 1;
+		PLAN = (plan_t){ -1, -1, A_NONE, 0, 0, 0 }; run_exec(p, who); NEXEC++; out_t base = *XO; if (FAIL[0] || base.c_hs != 1 || base.s_hs != 1) continue; /* reported by the puppet block */
+		for (int k = 0; k < base.nsend[pup]; k++) { int ht = base.snd[pup][k].hstype; if (ht != 15 && ht != 12) continue; size_t blen = base.snd[pup][k].len; (void)blen;
+			for (int off = -1; off < 12; off++) for (int v = 0; v < 9; v++) { if (off < 0 && v) continue; if (!vh_next()) continue; PLAN = (plan_t){ pup, k, off < 0 ? A_NONE : A_ALTER, off < 0 ? 0 : off, v, 1 }; run_exec(p, who); NEXEC++; int verifier_done = who ? XO->s_hs == 1 : XO->c_hs == 1; size_t kk[5] = { (size_t)p, (size_t)who, (size_t)k, (size_t)(off + 1), (size_t)v }; vh_eval(vh_hash(kk, sizeof kk, 7)); char key[200];
+				if (FAIL[0]) { snprintf(key, sizeof key, "C09:%s:%s-altered:%s", bn, hsname(ht), FAIL); vh_viol(key, "\"offset\":%d,\"value\":%d", off, v); continue; }
+				if (verifier_done) { snprintf(key, sizeof key, "C09:%s:%s-signed-with-unrelated-key%s:verifier-completed", bn, hsname(ht), off < 0 ? "" : "-and-header-byte-altered"); vh_viol(key, "\"offset\":%d,\"value_index\":%d,\"c_hs\":%d,\"s_hs\":%d", off, v, XO->c_hs, XO->s_hs); } } } }
 	printf("STAT states=%llu transitions=%llu executions=%llu\n", (unsigned long long)NEXEC, (unsigned long long)NEXEC * 2, (unsigned long long)NEXEC);
 }
-int main(int argc, char **argv) { vh_init(argc, argv); app_fill(); XO = mmap(NULL, sizeof *XO, PROT_READ | PROT_WRITE, MAP_SHARED | MAP_ANONYMOUS, -1, 0); for (int p = 0; p < 3; p++) if (build_side(&SRV[p], p, 0, 1, NULL) != 1 || build_side(&CLI[p], p, 1, 1, NULL) != 1) vh_harness_error("creds"); body(); return vh_finish(); }
+int main(int argc, char **argv) { vh_init(argc, argv); app_fill(); XO = mmap(NULL, sizeof *XO, PROT_READ | PROT_WRITE, MAP_SHARED | MAP_ANONYMOUS, -1, 0); cred_defects wk; memset(&wk, 0, sizeof wk); wk.wrong_signkey = 1; for (int p = 0; p < 3; p++) if (build_side(&SRV[p], p, 0, 1, NULL) != 1 || build_side(&CLI[p], p, 1, 1, NULL) != 1 || build_side(&SRVW[p], p, 0, 1, &wk) != 1 || build_side(&CLIW[p], p, 1, 1, &wk) != 1) vh_harness_error("creds"); body(); return vh_finish(); }
